@@ -284,7 +284,7 @@ Definition m_set_raw_name (name : bytes) : cm unit :=
        else m_resize_rr false (current_name_len - new_name_len)) ;;-
       v <-- getv ;;
       p' <-- clift (write_at (pp_packet v) offset name 663) ;;
-      putv (pp_with_packet v p') ;;-
+      putv (pp_with_cached (pp_with_packet v p') None) ;;-
       m_recompute_rr
   end.
 
